@@ -109,7 +109,7 @@ func padding(kind string, k int) string {
 		texts := []string{"# |@ not a chain |.p", "# x := \"unterminated { [ ( `", "# }> ]) }} ' ?c \\ \\1", "# |", "#|$", "# a | b || c |& d", "# #{ } #", "# if else return yield defer raise",
 			// line comments that look like the ends and the starts of block comments of other languages (closers first: a
 			// reader that took an opener for a block start would run on into the next padding, across the code between)
-			"# end of banner ]#", "# *# =# -# |# }# ># )# #]", "#]", "#[1] step", "#[ config ]####", "#[", "#* #= #- #| #{ #< #(", "#!/usr/bin/env pangaea", "#=begin", "#--[[", "#<<EOF"}
+			"# end of banner ]#", "# *# =# -# |# }# ># )# #]", "#]", "#[ config ]####", "#[1] step", "#[", "#* #= #- #| #{ #< #(", "#!/usr/bin/env pangaea", "#=begin", "#--[[", "#<<EOF"}
 		i := 0
 		for sb.Len() < k || i < len(texts) {
 			sb.WriteString(texts[i%len(texts)] + "\n")
@@ -359,6 +359,10 @@ func gen(thorough bool, emit func(tcase)) {
 			for _, k := range []int{0, 1, 2, 100, 1023, 1024, 1025, 2047, 2048, 2049, 4096} {
 				emit(tcase{Mode: "pad", Base: bi, Mark: -1, Kind: kind, Size: k})
 			}
+		}
+		// the special comment texts at every line break at once (a comment of one padding must not reach the next one)
+		for _, k := range []int{0, 1024} {
+			emit(tcase{Mode: "pad", Base: bi, Mark: -1, Kind: "special", Size: k})
 		}
 	}
 	for e := 0; e < 3; e++ {
